@@ -50,9 +50,59 @@ fn tower_ops(tier: &str, rng: &mut Prng, ops: &mut Vec<Case>) {
     }
 }
 
+/// the n = 1 case of `ntru_solve` = the extended Euclid loop `xgcd` on big integers: small and signed pairs, zeros,
+/// equal and consecutive-Fibonacci operands (the longest loop), random operands of up to a few thousand bits (the
+/// size of the resultants at the bottom of the real tower)
+fn base_ops(tier: &str, rng: &mut Prng, ops: &mut Vec<Case>) {
+    use num::{BigInt, One, Zero};
+    let mut pairs: Vec<(BigInt, BigInt)> = vec![];
+    for a in -6i64..=6 {
+        for b in -6i64..=6 {
+            pairs.push((BigInt::from(a), BigInt::from(b)));
+        }
+    }
+    let (mut x, mut y) = (BigInt::one(), BigInt::one());
+    for i in 0..400 {
+        let z = &x + &y;
+        x = y;
+        y = z;
+        if i % 40 == 39 {
+            pairs.push((y.clone(), x.clone()));
+            pairs.push((x.clone(), -y.clone()));
+        }
+    }
+    let reps = if tier == "thorough" { 600 } else { 60 };
+    let big = |rng: &mut Prng, bits: usize| -> BigInt {
+        let mut v = BigInt::zero();
+        for _ in 0..(bits + 63) / 64 {
+            v = (v << 64) + BigInt::from(rng.next());
+        }
+        let v = v >> ((64 - bits % 64) % 64);
+        if rng.below(2) == 0 { v } else { -v }
+    };
+    for r in 0..reps {
+        let bits = [8usize, 31, 32, 33, 63, 64, 65, 200, 1000, 4000][r % 10];
+        let a = big(rng, bits);
+        let bb = if r % 3 == 0 { bits } else { 1 + rng.below(bits as u64) as usize };
+        let b = big(rng, bb);
+        // a common factor in a third of the pairs, so that the refusing branch is taken with big operands too
+        if r % 3 == 1 {
+            let cb = 1 + rng.below(40) as usize;
+            let c = big(rng, cb);
+            pairs.push((&a * &c, &b * &c));
+        } else {
+            pairs.push((a, b));
+        }
+    }
+    for (a, b) in pairs {
+        ops.push(Case::new(format!("ntru_base {a} {b}")));
+    }
+}
+
 pub fn generate_c04(tier: &str, rng: &mut Prng) -> Vec<Case> {
     let mut ops = vec![];
     tower_ops(tier, rng, &mut ops);
+    base_ops(tier, rng, &mut ops);
     let per = if tier == "thorough" { 48 } else { 3 };
     for n in [512usize, 1024] {
         for i in 0..per {
@@ -117,6 +167,22 @@ pub fn oracle_c04(op: &[&str], out: &str) -> Verdict {
                 return Verdict::Fail(format!("tree leaves outside [sigma_min, sigma_max]: min {lmin}, max {lmax}"));
             }
             Verdict::Pass
+        }
+        "ntru_base" => {
+            // a returned pair solves a*G - b*F = q over Z; a refusal only makes the caller draw again (it is compared
+            // with the model, not judged)
+            use num::BigInt;
+            let (a, b): (BigInt, BigInt) = (op[1].parse().unwrap(), op[2].parse().unwrap());
+            if out == "none" {
+                return Verdict::Pass;
+            }
+            let p: Vec<&str> = out.split(' ').collect();
+            let (cf, cg): (BigInt, BigInt) = (p[0].parse().unwrap(), p[1].parse().unwrap());
+            if &a * &cg - &b * &cf == BigInt::from(12289) {
+                Verdict::Pass
+            } else {
+                Verdict::Fail("base case: f*G - g*F != q".into())
+            }
         }
         "field_norm" => {
             // N(f)(X^2) = f(X) f(-X) in Z[X]/(X^n+1): interleave the result with zeros and compare with the schoolbook product
